@@ -3,12 +3,16 @@
 use crate::{
     common::Prop,
     ctx::Ctx,
-    engine_pure,
+    engine_pure, engine_vec,
+    vec_gen::{self, GenCfg, Pipes, StageKind, ALL_KINDS, FILTERS, HTS, SORTS, STATIC_HT},
+    vec_types::{Policy, VecCase},
 };
 
 pub fn run_check(ctx: &mut Ctx) {
     match ctx.prop {
         Prop::C18 => c18(ctx),
+        Prop::C05 | Prop::C06 | Prop::C07 | Prop::C08 | Prop::C09 | Prop::C10 | Prop::C11 | Prop::C12 | Prop::C13 | Prop::C14
+        | Prop::C15 | Prop::C17 | Prop::C20 => vec_check(ctx),
         p => ctx.inconclusive.push(format!("no check implemented for {}", p.name())),
     }
 }
@@ -38,6 +42,11 @@ pub fn replay_one(ctx: &mut Ctx, path: &std::path::Path) {
     }
     match ctx.prop {
         Prop::C18 => go!(engine_pure::PureCase, engine_pure::run),
+        Prop::C05 | Prop::C06 | Prop::C07 | Prop::C08 | Prop::C09 | Prop::C10 | Prop::C11 | Prop::C12 | Prop::C13 | Prop::C14
+        | Prop::C15 | Prop::C17 | Prop::C20 => {
+            let prop = ctx.prop;
+            go!(VecCase, |c: &VecCase| engine_vec::run(c, prop))
+        }
         p => ctx.inconclusive.push(format!("no replay implemented for {}", p.name())),
     }
 }
@@ -56,6 +65,157 @@ fn c18(ctx: &mut Ctx) {
         &engine_pure::run,
         Some("vectors len<=4 over 3 values x all diffs (indices 0..=len+1, payload<=2) x 4 mappings"),
     );
-    let n = ctx.pick(200_000, 4_000_000);
+    let n = ctx.pick(1_000_000, 4_000_000);
     ctx.random("random-large", "pure", &|| engine_pure::strategy(200), &engine_pure::run, n);
+}
+
+/// Generator configurations per property: (phase name, config, quick cases, thorough cases).
+pub fn vec_phases(prop: Prop) -> Vec<(&'static str, GenCfg, u64, u64)> {
+    let d = GenCfg::default();
+    let single = |kinds: &[StageKind]| Pipes::Single(kinds.to_vec());
+    match prop {
+        Prop::C05 => vec![(
+            "raw-subscribers-bounded-lag",
+            GenCfg { pipes: Pipes::None, policies: vec![Policy::Eager, Policy::Bounded, Policy::Bounded], probe_pct: 90, w_subscribe: 2, final_drop_pct: 20, ..d.clone() },
+            300_000,
+            4_000_000,
+        )],
+        Prop::C06 => vec![(
+            "raw-subscribers-free-lag",
+            GenCfg {
+                pipes: Pipes::None,
+                capacities: vec![1, 1, 2, 2, 3, 5, 7, 16, 64],
+                policies: vec![Policy::Eager, Policy::Lazy, Policy::Lazy, Policy::Lazy],
+                probe_pct: 100,
+                w_subscribe: 2,
+                w_poll: 3,
+                initial_subs: (1, 4),
+                final_drop_pct: 20,
+                ..d.clone()
+            },
+            300_000,
+            4_000_000,
+        )],
+        Prop::C07 => vec![(
+            "transactions",
+            GenCfg {
+                pipes: Pipes::None,
+                w_vop: 3,
+                w_txn: 8,
+                probe_pct: 70,
+                initial_subs: (0, 3),
+                max_ops: 12,
+                final_drop_pct: 20,
+                ..d.clone()
+            },
+            300_000,
+            3_000_000,
+        )],
+        Prop::C08 => vec![(
+            "drop-vector",
+            GenCfg {
+                pipes: Pipes::None,
+                capacities: vec![1, 2, 3, 4, 16],
+                policies: vec![Policy::Eager, Policy::Lazy, Policy::Lazy, Policy::Bounded],
+                initial_subs: (1, 3),
+                final_drop_pct: 85,
+                max_ops: 16,
+                probe_pct: 90,
+                ..d.clone()
+            },
+            300_000,
+            3_000_000,
+        )],
+        Prop::C09 => vec![(
+            "head-tail-skip-single-stage",
+            GenCfg { pipes: single(&HTS), w_limit: 6, initial_subs: (1, 2), w_subscribe: 1, w_dropsub: 0, probe_pct: 95, ..d.clone() },
+            1_000_000,
+            20_000_000,
+        )],
+        Prop::C10 => vec![(
+            "filter-single-stage",
+            GenCfg { pipes: single(&FILTERS), capacities: vec![1, 2, 3, 16, 64], initial_subs: (1, 2), w_dropsub: 0, probe_pct: 95, ..d.clone() },
+            400_000,
+            6_000_000,
+        )],
+        Prop::C11 => vec![(
+            "sort-single-stage",
+            GenCfg { pipes: single(&SORTS), capacities: vec![1, 2, 3, 16, 64], initial_subs: (1, 2), w_dropsub: 0, probe_pct: 95, ..d.clone() },
+            400_000,
+            6_000_000,
+        )],
+        Prop::C12 => vec![(
+            "chains",
+            GenCfg { pipes: Pipes::Chain, w_limit: 6, initial_subs: (1, 2), w_dropsub: 0, probe_pct: 95, max_initial: 8, ..d.clone() },
+            500_000,
+            8_000_000,
+        )],
+        Prop::C13 => vec![
+            (
+                "batched-fixed-with-twin",
+                GenCfg {
+                    pipes: Pipes::Any,
+                    batched_pct: 100,
+                    twin: true,
+                    w_txn: 8,
+                    w_vop: 5,
+                    initial_subs: (1, 2),
+                    w_dropsub: 0,
+                    capacities: vec![4, 16, 64],
+                    probe_pct: 100,
+                    ..d.clone()
+                },
+                250_000,
+                3_000_000,
+            ),
+            (
+                "batched-dynamic",
+                GenCfg { pipes: Pipes::Any, batched_pct: 100, w_txn: 8, w_vop: 5, w_limit: 5, initial_subs: (1, 2), w_dropsub: 0, probe_pct: 100, ..d.clone() },
+                200_000,
+                3_000_000,
+            ),
+        ],
+        Prop::C14 => vec![(
+            "all-streams-poll-after-every-op",
+            GenCfg {
+                pipes: Pipes::Any,
+                policies: vec![Policy::Eager, Policy::Eager, Policy::Lazy],
+                w_limit: 6,
+                w_poll: 6,
+                initial_subs: (1, 3),
+                probe_pct: 95,
+                final_drop_pct: 60,
+                ..d.clone()
+            },
+            500_000,
+            6_000_000,
+        )],
+        Prop::C15 => vec![
+            ("static-head-tail", GenCfg { pipes: single(&STATIC_HT), initial_subs: (1, 2), w_dropsub: 0, ..d.clone() }, 300_000, 4_000_000),
+            ("static-head-tail-in-chains", GenCfg { pipes: Pipes::Chain, initial_subs: (1, 2), w_dropsub: 0, w_limit: 3, ..d.clone() }, 150_000, 2_000_000),
+        ],
+        Prop::C17 => vec![(
+            "mutators-and-traversal",
+            GenCfg { pipes: Pipes::None, oob: true, w_txn: 5, initial_subs: (0, 2), probe_pct: 70, max_ops: 16, w_poll: 1, ..d.clone() },
+            400_000,
+            4_000_000,
+        )],
+        Prop::C20 => vec![
+            ("raw-and-transactions", GenCfg { pipes: Pipes::None, w_txn: 5, initial_subs: (0, 4), w_dropsub: 3, ..d.clone() }, 150_000, 1_500_000),
+            ("adapters", GenCfg { pipes: Pipes::Any, w_limit: 4, initial_subs: (1, 3), w_dropsub: 3, ..d.clone() }, 150_000, 1_500_000),
+        ],
+        _ => vec![],
+    }
+}
+
+fn vec_check(ctx: &mut Ctx) {
+    let prop = ctx.prop;
+    let run = move |c: &VecCase| engine_vec::run(c, prop);
+    ctx.regress_dir("regress", "vec", &run);
+    ctx.known_findings("vec", &run);
+    for (name, cfg, q, t) in vec_phases(prop) {
+        let n = ctx.pick(q, t);
+        ctx.random(name, "vec", &|| vec_gen::case(&cfg), &run, n);
+    }
+    let _ = ALL_KINDS;
 }
